@@ -211,12 +211,17 @@ func runRLConcurrent(seed uint64, t *Trace) {
 	limit := 1 + r.Intn(8)
 	rate := []time.Duration{500 * time.Microsecond, 3 * time.Millisecond, 20 * time.Millisecond}[r.Intn(3)]
 	callers := []int{1, 2, 4, 16, 64}[r.Intn(5)]
+	if r.Chance(30) {
+		// more room than calls: nobody may be turned away, however the callers collide
+		limit = callers*40 + 1 + r.Intn(5)
+	}
 	rl := glow.NewRateLimiter(limit, rate)
 	base := time.Now()
 	type rej struct{ b, a int64 }
 	var mu sync.Mutex
 	var rejected []rej
 	var admittedAll []int64
+	var admIv []rej // caller-side [before, after] of every admitted call
 	var wg sync.WaitGroup
 	pattern := r.Intn(3)
 	for c := 0; c < callers; c++ {
@@ -242,6 +247,7 @@ func runRLConcurrent(seed uint64, t *Trace) {
 				} else {
 					// the limiter forgets old admissions; collect them while they are visible
 					mu.Lock()
+					admIv = append(admIv, rej{int64(b.Sub(base)), int64(a.Sub(base))})
 					for _, u := range rl.VerifAdmitted() {
 						admittedAll = append(admittedAll, int64(u.Sub(base)))
 					}
@@ -271,9 +277,11 @@ func runRLConcurrent(seed uint64, t *Trace) {
 	}
 	starved := 0
 	for _, q := range rejected {
+		// an upper bound of the admissions the rejected call can have seen: every admitted call whose own
+		// [before, after] interval reaches into (q.b - rate, q.a]
 		n := 0
-		for _, x := range adm {
-			if x > q.b-int64(rate) && x <= q.a {
+		for _, x := range admIv {
+			if x.a > q.b-int64(rate) && x.b <= q.a {
 				n++
 			}
 		}
@@ -296,7 +304,11 @@ func runRLConcurrent(seed uint64, t *Trace) {
 	for _, q := range rejected {
 		rs = append(rs, fmt.Sprintf("%d:%d", q.b, q.a))
 	}
-	t.Line("rl.judge limit=%d rate=%d callers=%d adm=%s rej=%s => %s", limit, int64(rate), callers, strings.Join(as, ","), strings.Join(rs, ","), obs)
+	var ai []string
+	for _, q := range admIv {
+		ai = append(ai, fmt.Sprintf("%d:%d", q.b, q.a))
+	}
+	t.Line("rl.judge limit=%d rate=%d callers=%d adm=%s admi=%s rej=%s => %s", limit, int64(rate), callers, strings.Join(as, ","), strings.Join(ai, ","), strings.Join(rs, ","), obs)
 	t.DumpStats()
 }
 
